@@ -4,6 +4,7 @@ import json
 import os
 import pickle
 import sys
+import zlib
 
 from . import core
 from .query_replay import L
@@ -136,20 +137,52 @@ def register_copy(orig_n, copy_n, k):
     return bij
 
 
-def perform(vec):
+EXTRA = "e1"
+
+
+def with_extra(st, leaf=None):
+    """The projection `st` plus the isolated extra node (attached below `leaf` if given)."""
+    out = {k: dict(v) for k, v in st.items()}
+    light = st["cls"].get(leaf or "", "").startswith("light") if leaf else None
+    out["par"][EXTRA] = leaf or "Nil"
+    out["ch"][EXTRA] = []
+    out["tgt"][EXTRA] = "Nil"
+    out["foo"][EXTRA] = "AttributeError"
+    out["own"][EXTRA] = []
+    if leaf:
+        out["ch"][leaf] = list(out["ch"][leaf]) + [EXTRA]
+    return out
+
+
+def perform(vec, fresh=False):
+    """fresh: the original is copied straight after construction (nothing has read it), and the copy is then *extended*
+    below one of its leaves instead of being cut."""
     from . import nodes as N
 
     k = vec["k"]
     pre = conv_state(vec["pre"], k)
     z = vec["z"]
     build(pre)
-    built = project()
-    if built != pre:
-        return {"build_failed": True, "built": built, "pre": pre}
     n = L(z["n"])
+    leaf = None
+    if fresh:
+        zpost = conv_state(z["post"], k)
+        leaves = sorted(x for x in zpost["par"] if x not in pre["par"] and not zpost["ch"][x])
+        if not leaves:
+            fresh = False
+        else:
+            leaf = leaves[len(z["how"]) % len(leaves)]
+            extra = N.HLight() if zpost["cls"][leaf].startswith("light") else N.HMixin()
+            N.register(extra, EXTRA)
+            pre = with_extra(pre)
+            pre["cls"][EXTRA] = "light" if zpost["cls"][leaf].startswith("light") else "mixin"
+    if not fresh:
+        built = project()
+        if built != pre:
+            return {"build_failed": True, "built": built, "pre": pre}
     orig = N.Ctx.objs[n]
     how = z["how"]
-    obs = {"pre": built, "n": n}
+    obs = {"pre": pre, "n": n, "mut": "attach" if fresh else "cut", "leaf": leaf or "", "extra": EXTRA if fresh else ""}
     try:
         if how == "deepcopy":
             cp = copy.deepcopy(orig)
@@ -166,9 +199,19 @@ def perform(vec):
     while root.parent is not None:
         root = root.parent
     obs["root"] = N.label(root)
+    if fresh and {x: {a: b for a, b in v.items() if a in pre["par"]} for x, v in obs["post"].items()} != pre:
+        # the originals do not look as intended: was it the copy, or could the pre-state not be built in the first place?
+        build(conv_state(vec["pre"], k))
+        built = project()
+        if built != conv_state(vec["pre"], k):
+            return {"build_failed": True, "built": built, "pre": pre}
+        return obs | {"raised_after": "the original tree differs from what was built, after copying it"}
     try:
-        cp.parent = None
-        del root.children
+        if fresh:
+            N.Ctx.objs[EXTRA].parent = N.Ctx.objs[leaf]
+        else:
+            cp.parent = None
+            del root.children
     except Exception as e:  # noqa
         obs["raised_after"] = "%s: %s" % (type(e).__name__, str(e)[:200])
     obs["after"] = project()
@@ -180,6 +223,12 @@ def same(vec, obs):
     z = vec["z"]
     if "raised" in obs or "raised_after" in obs:
         return False
+    if obs["mut"] == "attach":
+        post = with_extra(conv_state(z["post"], k))
+        post["cls"][EXTRA] = obs["pre"]["cls"][EXTRA]
+        after = with_extra(conv_state(z["post"], k), obs["leaf"])
+        after["cls"][EXTRA] = obs["pre"]["cls"][EXTRA]
+        return obs["post"] == post and obs["after"] == after and obs["result"] == L(z["n"] + k)
     return obs["post"] == conv_state(z["post"], k) and obs["after"] == conv_state(z["after"], k) and obs["result"] == L(z["n"] + k)
 
 
@@ -196,12 +245,21 @@ def worker_init(repo):
 def replay_chunk(lines):
     out = {"n": 0, "same": 0, "attention": [], "dropped": 0, "per_how": {}}
     for line in lines:
+        if out["dropped"] >= 60:
+            # the implementation is evidently broken (and may leak state from copy to copy, which makes every further copy
+            # slower): the verdict is settled, the rest of this chunk is not replayed
+            out["skipped"] = out.get("skipped", 0) + 1
+            continue
         vec = json.loads(json.loads(line))
         out["n"] += 1
         key = "%s:%s" % (vec["fam"], vec["z"]["how"])
         out["per_how"][key] = out["per_how"].get(key, 0) + 1
         try:
-            obs = core.call_with_deadline(lambda: perform(vec))
+            fresh = zlib.crc32(line.encode()) % 2 == 1
+            obs = core.call_with_deadline(lambda: perform(vec, fresh))
+            if not obs.get("build_failed") and "mut" in obs:
+                key2 = "follow-up:" + obs["mut"]
+                out["per_how"][key2] = out["per_how"].get(key2, 0) + 1
         except core.Hang:
             obs = {"raised": "Hang: the copy did not return within the time limit", "n": "?"}
         if not obs.get("build_failed") and same(vec, obs):
